@@ -982,9 +982,12 @@ impl NotificationProtocol {
         match context.state {
             // protocol can only request a new outbound substream to be opened if the state is
             // `Closed` other states imply that it's already open
+            // the pending substream can only be reused while its outcome is still outstanding: if it
+            // has already failed to open, nothing will ever be reported for it and a new substream
+            // must be opened instead
             PeerState::Closed {
                 pending_open: Some(substream_id),
-            } => {
+            } if self.pending_outbound.contains_key(&substream_id) => {
                 tracing::trace!(
                     target: LOG_TARGET,
                     ?peer,
